@@ -195,7 +195,7 @@ def check_roundtrip(path: str, model, expected: dict, check_ir_load: bool = True
                     continue
                 if got != want:
                     n0 = len(want) - len(want) % 4096
-                    probs.append({"reader": "raw", "dtype": str(t.dtype), "tensor": tp.name,
+                    probs.append({"reader": "raw", "dtype": str(t.dtype), "tensor": f"{TAG.get(g.name, g.name)}:{tp.name}",
                                   "confined_to_final_partial_block": got[:n0] == want[:n0], "what":
                                   f"{tp.name}: external bytes differ (got {len(got)} bytes, want {len(want)}; file size {os.path.getsize(fp)})"})
             else:
@@ -284,6 +284,19 @@ def run_save(recipe: dict, plan: dict | None, root: str, retry: bool = True) -> 
         os.chdir(sandbox)
         call_path, real_path = _call_path(cfg, sandbox)
         pre = cfg.get("preexisting", "none") if cfg.get("path_form") != "missingdir" else "none"
+        if pre == "symlink_model":
+            store = os.path.join(sandbox, "store")
+            os.makedirs(store, exist_ok=True)
+            blob = os.path.join(store, "blob-0001")
+            with open(blob, "wb") as f:
+                f.write(b"old-blob" * 40)
+            os.symlink(os.path.relpath(blob, os.path.dirname(real_path)), real_path)
+        if pre == "symlink_dir" and cfg.get("path_form") == "abs":
+            # <sandbox>/out is replaced by a symlink to <sandbox>/realdir
+            d = os.path.dirname(real_path)
+            os.rmdir(d)
+            os.makedirs(os.path.join(sandbox, "realdir"), exist_ok=True)
+            os.symlink(os.path.join(sandbox, "realdir"), d)
         if pre in ("both", "model_only"):
             with open(real_path, "wb") as f:
                 f.write(b"stale-model" * 50)
